@@ -125,6 +125,20 @@ Definition memory_group (o : dobj) (ggp : option N) : dobj :=
 Definition find_insert_memory_parent (keep_group : bool) (dms : list N) (ggp : option N) (root : obj) (o : dobj)
   : obj * fres :=
   let cs := match o_cs o with Some s => s | None => bs_empty end in
+  (* CPU-less: reuse the CPU-less memory Group below the root that already holds a memory object sharing some of
+     our nodes, e.g. the memory-side cache in front of this NUMA node (/repo 6bc5bae) *)
+  let reuse :=
+    if bs_is_empty cs then
+      find (fun c => (otype c =? HWLOC_OBJ_GROUP) && (o_group_kind (odata c) =? Z.of_N HWLOC_GROUP_KIND_MEMORY)%Z &&
+                     (match o_cs (odata c) with Some s => bs_is_empty s | None => false end) &&
+                     existsb (fun m => match o_nds (odata m), o_nds o with
+                                       | Some a, Some b => bs_intersects a b
+                                       | _, _ => false
+                                       end) (omch c)) (onch root)
+    else None in
+  match reuse with
+  | Some g => (root, FParent (o_gp (odata g)))
+  | None =>
   let '(parent, perfect) :=
     if bs_is_empty cs then (root, false)
     else
@@ -141,7 +155,8 @@ Definition find_insert_memory_parent (keep_group : bool) (dms : list N) (ggp : o
     | Some OFail => (root', FParent (o_gp (odata parent)))
     | Some _ => (root', FAbort)
     | None => (root, FAbort)
-    end.
+    end
+  end.
 
 (* ---------- the checks of hwloc__attach_memory_object, then the attachment below PARENT ---------- *)
 
